@@ -66,6 +66,13 @@ CHECKS += [
           'trusted: TLC, g++ 12 diagnostics attribution through "required from here"; clause arguments are well-typed; clang not used in the quick tier', 'tla-clauses'),
 ]
 
+CHECKS += [
+    other('C20', 'Coro.tla specifies the call (ordinary matching, counting, side effects at call time) and the coroutine instance (CO_YIELD expressions in declaration order, one per resumption, then CO_RETURN / CO_THROW; clause exceptions stored and surfacing at the await point; eager types run to the first suspension inside the call, lazy ones do nothing); '
+                 'TLC checks order / independence / nothing-at-call properties on a bounded model (MCCoro); a C++20 driver with own eager/lazy task, generator and void-task types runs seeded scripts (calls, interleaved resumptions of several instances of one expectation, destruction) under ASan (stack-use-after-return on) and every clause evaluation, yielded value, completion and flag is validated by TLC; legal clause combinations are compile-probed',
+          'TLA+ spec (Coro.tla Step) + TLC model checking (MCCoro) + TLC trace validation of the real library driven through mocked coroutines', '6/C20',
+          'trusted: TLC, g++ 12 coroutines + ASan; arity-0 coroutine functions only (open finding D12); expectation outlives its coroutines (proviso)', 'tla-coro'),
+]
+
 NOT_YET = {
     'C09': 'check under construction in this round (generated program family + Binding.tla); not claimed until it runs clean',
     'C10': 'check under construction in this round (Matchers.tla + matcher driver); not claimed until it runs clean',
@@ -85,7 +92,8 @@ def main():
                    enable='-DROLLBEAR_TROMPELOEIL_VERIF on the C12 driver build only (no hook commit exists yet; the sequential checks use the public API only)',
                    baseline_off_cmd='cmake -G Ninja -S /repo -B /repo/_build -DCMAKE_BUILD_TYPE=RelWithDebInfo -DCMAKE_CXX_FLAGS=-Wno-error -DTROMPELOEIL_BUILD_TESTS=yes && cmake --build /repo/_build && ctest --test-dir /repo/_build -j8 --timeout 900 --output-junit /repo/_build/junit.xml',
                    source_commits=[], add_only=True),
-        engines=[dict(name='tla-clauses', path='spec/Clauses.tla', serves_properties=['C19'], kind_free_text='TLA+ typestate machine, TLC-generated transition cover compiled by g++'),
+        engines=[dict(name='tla-coro', path='spec/Coro.tla', serves_properties=['C20'], kind_free_text='TLA+ spec + TLC model checking + trace validation of mocked coroutines (C++20 driver)'),
+                 dict(name='tla-clauses', path='spec/Clauses.tla', serves_properties=['C19'], kind_free_text='TLA+ typestate machine, TLC-generated transition cover compiled by g++'),
                  dict(name='tla-matchers', path='spec/Matchers.tla', serves_properties=['C10', 'C11'], kind_free_text='TLA+ oracle + TLC trace validation of real matcher verdicts'),
                  dict(name='tla-printing', path='spec/Printing.tla', serves_properties=['C18'], kind_free_text='TLA+ oracle + TLC trace validation of real print() output'),
                  dict(name='tla-core', path='spec/Core.tla', serves_properties=[c['property_id'] for c in CHECKS if c['engine'] == 'tla-core'],
